@@ -112,6 +112,12 @@ def replay(pid, path):
     if rp["claim"] == "no-unexpected-exception" and er is not None:
         bad = True
         print(getattr(cr, "tb", ""))
+    if not bad and er is None:
+        crr, err_ = base.run_concrete(c["scenario"], c.get("params", {}), "real", values=rp["values"], seed=0, relative=True)
+        for cl in crr.claims:
+            if cl["name"] == rp["claim"] and cl["status"] == "failed":
+                bad = True
+                print("  claim %-40s failed under the purely relative comparison: %s" % (cl["name"], cl["detail"]))
     if bad:
         print("VIOLATION property=%s replay=%s" % (pid, path))
         return EXIT_VIOLATION
